@@ -143,6 +143,8 @@ def generate(ctx):
         ch = chars[tape.draw(len(chars), "badchar")]
         if ch == "." and data[off:off + 1] == b".":
             ch = "x"
+        if ch == "," and kind == "listint":
+            ch = "#"      # a comma in a list column makes another list (possibly with an empty element), not a foreign character
         bad[off] = ord(ch)
         info.update({"field": fname, "offset": off, "char": ch})
     elif klass == "strand":
